@@ -10,6 +10,8 @@ import (
 	"github.com/taskctl/taskctl/pkg/runner"
 	"github.com/taskctl/taskctl/pkg/scheduler"
 	"github.com/taskctl/taskctl/pkg/utils"
+
+	"github.com/Flowpack/prunner/verifhook"
 )
 
 // Scheduler executes ExecutionGraph
@@ -47,12 +49,16 @@ func (s *Scheduler) Schedule(g *scheduler.ExecutionGraph) error {
 		mx      sync.Mutex
 	)
 
+	verifhook.Yield("sched.loop", s.taskRunner, g)
 	for !s.isDone(g) {
 		if atomic.LoadInt32(&s.cancelled) == 1 {
 			break
 		}
 
 		for _, stage := range g.Nodes() {
+			if verifhook.Skip("sched.visit", s.taskRunner, g, stage) {
+				continue
+			}
 			status := stage.ReadStatus()
 			if status != scheduler.StatusWaiting {
 				continue
@@ -90,6 +96,7 @@ func (s *Scheduler) Schedule(g *scheduler.ExecutionGraph) error {
 					wg.Done()
 				}()
 
+				verifhook.Yield("stage.go", s.taskRunner, stage)
 				stage.Start = time.Now()
 
 				err := s.runStage(stage)
@@ -111,6 +118,7 @@ func (s *Scheduler) Schedule(g *scheduler.ExecutionGraph) error {
 		}
 
 		time.Sleep(s.pause)
+		verifhook.Yield("sched.loop", s.taskRunner, g)
 	}
 
 	wg.Wait()
